@@ -4,8 +4,8 @@ from gen_util import *
 from srp_cases import *
 import pyref
 
-MODULES = ["WowSrp.Props.C01", "WowSrp.Props.Source.C01", "WowSrp.Props.Source.Structural.C01", "WowSrp.Props.Source.StripRule", "WowSrp.Props.Source.Formulas", "WowSrp.Props.Source.Glue.Srp", "WowSrp.Props.Source.Shape.C01", "WowSrp.Props.Source.HashesSrp", "WowSrp.Props.Source.Interleave", "WowSrp.Props.Source.ApiSetup", "WowSrp.Props.Source.ApiIntoServer", "WowSrp.Props.Source.ApiClient", "WowSrp.Props.Source.ApiLinkedLogin"]
-THEOREMS = ["C01_case_invariant", "C01_storage_round_trip", "C01_secrets_agree", "C01_public_keys_accepted", "C01_same_padding", "C01_intoProof_panics_iff", "C01_login_exact", "C01_login_agrees", "C01_real_assumptions", "C01_real", "C01_source_no_hidden_state", "C01_source_structural_impls", "C01_translated_strip_rule", "C01_translated_formulas", "C01_source_glue_srp", "C01_source_shapes", "C01_translated_calculate_x", "C01_translated_interleaved", "C01_translated_from_database_values", "C02_translated_into_server", "C02_translated_verify_server_proof", "C03_translated_client_new", "C02_linked_into_server", "C03_translated_setup_signatures", "C02_translated_into_server_signature", "C03_translated_client_signatures"]
+MODULES = ["WowSrp.Props.C01", "WowSrp.Props.Source.C01", "WowSrp.Props.Source.Structural.C01", "WowSrp.Props.Source.StripRule", "WowSrp.Props.Source.Formulas", "WowSrp.Props.Source.Glue.Srp", "WowSrp.Props.Source.Shape.C01", "WowSrp.Props.Source.HashesSrp", "WowSrp.Props.Source.Interleave", "WowSrp.Props.Source.ApiSetup", "WowSrp.Props.Source.ApiIntoServer", "WowSrp.Props.Source.ApiClient", "WowSrp.Props.Source.ApiLinkedLogin", "WowSrp.Props.Source.ApiLinkedClient"]
+THEOREMS = ["C01_case_invariant", "C01_storage_round_trip", "C01_secrets_agree", "C01_public_keys_accepted", "C01_same_padding", "C01_intoProof_panics_iff", "C01_login_exact", "C01_login_agrees", "C01_real_assumptions", "C01_real", "C01_source_no_hidden_state", "C01_source_structural_impls", "C01_translated_strip_rule", "C01_translated_formulas", "C01_source_glue_srp", "C01_source_shapes", "C01_translated_calculate_x", "C01_translated_interleaved", "C01_translated_from_database_values", "C02_translated_into_server", "C02_translated_verify_server_proof", "C03_translated_client_new", "C02_linked_into_server", "C03_translated_setup_signatures", "C02_translated_into_server_signature", "C03_translated_client_signatures", "C02_linked_verify_server_proof", "C03_linked_client_new"]
 RULE = ("complete honest exchanges with injected salt, a, b, challenge: credentials of every length 1..16 over the printable "
         "range with random letter-case flips on the client side, with/without storage round trip, special private keys/salts "
         "(tiny, high-order zero bytes, low-order zero bytes, all-ones); sessions whose S has 1 (thorough: 2) low-order zero bytes "
